@@ -33,6 +33,17 @@ def _nonnull(ctx: Ctx, module):
     return f
 
 
+def _feasible_partition_witness(preds):
+    fs = [preds['instances'], preds['edges'], preds['attributes']]
+    for env in bn.assignments(fs):
+        if env.get('t[2] is None') and env.get('t[2] in self.variables()'):
+            continue                                    # None is never a variable
+        vals = [bn.evaluate(f, env) for f in fs]
+        if sum(vals) != 1:
+            return env, vals
+    return None
+
+
 @rule('R21', 'instances / edges / attributes partition the triples; edges are the non-instance triples whose target is a variable')
 def r21(ctx: Ctx) -> RuleReport:
     from ..select import Selector
@@ -62,6 +73,14 @@ def r21(ctx: Ctx) -> RuleReport:
     if bad is None:
         rep.ok('Graph: instances/edges/attributes are pairwise disjoint and jointly exhaustive', where,
                ' ; '.join(f'{k}={bn.show(v)}' for k, v in preds.items()))
+    elif all(set(bn.atoms_of(v)) <= {'CONCEPT_ROLE == t[1]', 't[2] in self.variables()', 't[2] is None'} for v in preds.values()) and \
+            _feasible_partition_witness(preds) is not None:
+        # a third condition that is understood: the target is None (never a variable; possible for an instance triple - a node without concept - and for a relation)
+        env, vals = _feasible_partition_witness(preds)
+        names = [n for n, v in zip(('instances', 'edges', 'attributes'), vals) if v]
+        rep.violation('Graph: instances/edges/attributes are pairwise disjoint and jointly exhaustive', where,
+                      f'a triple with {env} is returned by {names or "none of the three queries"} (a target that is None is not a variable, but it can be the target of an '
+                      f'instance triple: the node "(a)" has (a :instance None)); predicates: ' + ' ; '.join(f'{k}={bn.show(v)}' for k, v in preds.items()))
     elif not all(set(bn.atoms_of(v)) <= {'CONCEPT_ROLE == t[1]', 't[2] in self.variables()'} for v in preds.values()):
         rep.undecided('Graph: instances/edges/attributes are pairwise disjoint and jointly exhaustive', where,
                       'a selection predicate contains a condition that is not understood: ' + ' ; '.join(f'{k}={bn.show(v)[:80]}' for k, v in preds.items()))
